@@ -81,7 +81,7 @@ class PipelineAddElements(Contract):
     equality: two pipelines may contain identically configured steps, and applying a step twice is not applying it once)"""
     id = "C14.ProcessingPipeline.__add__[elements]"
     target = "sigma.processing.pipeline:ProcessingPipeline.__add__"
-    props = ("C14",)
+    props = ("C14", "C15")
     cases = ((0, 1), (1, 1), (2, 1), (1, 2), (2, 2))
     assumed = ["list lengths unrolled (0..2 per operand); == between two different items is an arbitrary symmetric relation"]
 
@@ -102,11 +102,13 @@ class PipelineAddElements(Contract):
         ops_ = {}
         for name, n in (("self", na), ("other", nb)):
             f = {c: items(f"{name}.{c}.", n) for c, _ in COMPONENTS}
-            f["vars"] = I.fresh(f"{name}.vars", "opaque", "Dict")
+            # variables as real dicts: self always has some, other has none when it holds a single item (the common case of backend / format pipelines)
+            f["vars"] = {"k": I.fresh(f"{name}.k", "str"), f"only_{name}": I.fresh(f"{name}.only", "str")} if (name == "self" or n != 1) else {}
             ops_[name] = SObj(cinfo, f, lazy=True)
             ops_[name].ghost["cleared"] = False
         snap = {name: {c: list(o.fields[c]) for c, _ in COMPONENTS} for name, o in ops_.items()}
-        return {"self": ops_["self"], "args": [ops_["other"]], "snap": snap}
+        vsnap = {name: dict(o.fields["vars"]) for name, o in ops_.items()}
+        return {"self": ops_["self"], "args": [ops_["other"]], "snap": snap, "vsnap": vsnap, "ops": ops_}
 
     def post(self, I, inp, r):
         c = I.ctx
@@ -118,6 +120,13 @@ class PipelineAddElements(Contract):
                 got = r.fields.get(comp)
                 got = I.force(got) if not isinstance(got, list) else got
                 c.require(isinstance(got, list) and len(got) == len(want) and all(x is y for x, y in zip(got, want)), f"{comp}: every item of self, then every item of other - none dropped, none merged")
+            v = r.fields.get("vars")
+            v = I.force(v) if not isinstance(v, dict) else v
+            want_v = {**inp["vsnap"]["self"], **inp["vsnap"]["other"]}
+            c.require(isinstance(v, dict) and set(v) == set(want_v) and all(v[k] is want_v[k] for k in want_v), "vars == {**self.vars, **other.vars}")
+            c.require(v is not inp["ops"]["self"].fields["vars"] and v is not inp["ops"]["other"].fields["vars"],
+                      "the result has a variables dict of its own (callers write backend options into it; a shared dict would leak them into the operand - a class-level pipeline)", kind="FRAME")
+            c.require(dict(inp["ops"]["self"].fields["vars"]) == inp["vsnap"]["self"] and dict(inp["ops"]["other"].fields["vars"]) == inp["vsnap"]["other"], "the operands' variables are unchanged", kind="FRAME")
 
     def replay(self, values):
         """two different pipelines with an identically configured step, on the real code"""
